@@ -397,7 +397,10 @@ def gen_cases(rng, tier):
             ss = rng.sample(ss, cap)
         for ops in ss:
             cases.append({"in": [classes, rels, ops], "kind": "small:" + name, "fam": name})
-        for ops in _directed(classes, rels):
+        dd = _directed(classes, rels)
+        if tier not in ("search", "thorough") and len(dd) > 10:
+            dd = rng.sample(dd, 10)
+        for ops in dd:
             cases.append({"in": [classes, rels, ops], "kind": "directed:" + name, "fam": name})
         for _ in range(6 if quick else 500):
             ops = _rand_script(rng, classes, rels, rng.randint(3, 14 if quick else 40))
